@@ -12,7 +12,7 @@
        The provenance kinds are computed by the translator (per function, source
        order, end-of-function summaries across functions); a call it cannot
        classify carries the kind "?" and fails [lane_events_follow_chain].  *)
-From Coq Require Import List String Bool.
+From Coq Require Import List String Ascii Bool.
 From WebpGen Require LaneCalls.
 Import ListNotations.
 Open Scope string_scope.
@@ -39,8 +39,9 @@ Definition event_ok (e : string * string * string * list string) : bool :=
     else if mem sq ["Y1"; "UV"] then subset kinds ["fdct"; "fdct0"]       (* C13_dequant_upper, C13_lane_quant_eq_encoder *)
     else false
   else if mem kernel ["DequantCoeffs"; "dequantCoeffsGo"] then
-    if String.eqb sq "Y2" then subset kinds ["lvY2"]
-    else if mem sq ["Y1"; "UV"] then subset kinds ["lvY1"; "lvUV"]
+    (* the levels being dequantised were quantised with the same matrix (Y1 / Y2 / UV):
+       buffers are tracked per region of MBEncInfo.Coeffs (luma blocks, chroma blocks, [384:400]) *)
+    if mem sq ["Y1"; "Y2"; "UV"] then subset kinds ["lv" ++ sq] && negb (match kinds with [] => true | _ => false end)
     else false
   else if String.eqb kernel "TransformWHT" then
     subset kinds ["dqY2"]                                                 (* C13_encoder_wht_in_range *)
@@ -58,7 +59,9 @@ Example event_ok_rejects :
   event_ok ("internal/lossy/encode_frame.go:1", "ITransformDirect", "", ["dqY2"]) = false /\
   event_ok ("internal/lossy/encode_frame.go:1", "TransformWHT", "", ["stream"]) = false /\
   event_ok ("internal/lossy/encode_frame.go:1", "QuantizeCoeffs", "Y1", ["lvY1"]) = false /\
-  event_ok ("internal/lossy/encode_frame.go:1", "FTransformDirect", "", ["?"]) = false.
+  event_ok ("internal/lossy/encode_frame.go:1", "FTransformDirect", "", ["?"]) = false /\
+  event_ok ("internal/lossy/encode_frame.go:1", "DequantCoeffs", "Y1", ["lvUV"]) = false /\
+  event_ok ("internal/lossy/encode_frame.go:1", "DequantCoeffs", "UV", ["lvUV"; "lvY1"]) = false.
 Proof. repeat split; reflexivity. Qed.
 
 (** Every kind of call occurs (the list is not empty or truncated). *)
@@ -80,6 +83,58 @@ Definition reviewed_readers : list string :=
 
 Lemma lane_buffer_readers_reviewed : subset LaneCalls.lane_buffer_readers reviewed_readers = true.
 Proof. vm_compute. reflexivity. Qed.
+
+(** ** Segment identity: the quantiser matrices all come from one segment
+
+    Every quantiser argument is [&seg.Y1 / .Y2 / .UV] with [seg] a *parameter* of
+    the function; every call that passes a *SegmentInfo passes its own [seg]; the
+    only bindings of a *SegmentInfo in the encoding path are
+    [seg := &enc.dqm[info.Segment]] in encodeFrame / encodeRow (the roots of the
+    per-macroblock call trees, where [info] is that macroblock's MBEncInfo); the
+    two other bindings are in set-up code that makes no such call.  Together with
+    the per-region tracking above: a block is dequantised with the matrix of the
+    same kind of the same segment it was quantised with. *)
+Fixpoint after_bar (s : string) : string :=
+  match s with
+  | EmptyString => EmptyString
+  | String c t => if Ascii.eqb c "|"%char then t else after_bar t
+  end.
+Fixpoint before_bar (s : string) : string :=
+  match s with
+  | EmptyString => EmptyString
+  | String c t => if Ascii.eqb c "|"%char then EmptyString else String c (before_bar t)
+  end.
+
+Definition root_binders : list string := ["encodeFrame"; "encodeRow"].
+Definition reviewed_segbinds : list string :=
+  ["setupSegment|seg:=&enc.dqm[idx]"; "setupFilterStrength|m:=&enc.dqm[i]";
+   "encodeFrame|seg:=&enc.dqm[info.Segment]"; "encodeRow|seg:=&enc.dqm[info.Segment]"].
+
+Definition seg_fact_ok (all : list (string * string * string)) (f : string * string * string) : bool :=
+  let '(pos, what, text) := f in
+  if String.eqb what "sqroot" then String.eqb (after_bar text) "param:seg"
+  else if String.eqb what "segcall" then
+    String.eqb (after_bar text) "seg" &&
+    (* the caller either received seg as a parameter or is one of the two roots *)
+    (mem (before_bar text) root_binders ||
+     negb (existsb (fun g => String.eqb (snd (fst g)) "segbind" && String.eqb (before_bar (snd g)) (before_bar text)) all))
+  else if String.eqb what "segbind" then
+    mem text reviewed_segbinds &&
+    (if mem (before_bar text) root_binders then String.eqb (after_bar text) "seg:=&enc.dqm[info.Segment]" else true)
+  else false.
+
+Lemma lane_segments_consistent :
+  forallb (seg_fact_ok LaneCalls.lane_seg_facts) LaneCalls.lane_seg_facts = true /\
+  existsb (fun f => String.eqb (snd (fst f)) "sqroot") LaneCalls.lane_seg_facts = true /\
+  existsb (fun f => String.eqb (snd f) "encodeFrame|seg:=&enc.dqm[info.Segment]") LaneCalls.lane_seg_facts = true.
+Proof. vm_compute. repeat split; reflexivity. Qed.
+
+Example seg_fact_ok_rejects :
+  seg_fact_ok [] ("p", "sqroot", "f|local:&enc.dqm[0]") = false /\
+  seg_fact_ok [] ("p", "segcall", "f|&enc.dqm[k]") = false /\
+  seg_fact_ok [("q", "segbind", "f|seg:=&enc.dqm[idx]")] ("p", "segcall", "f|seg") = false /\
+  seg_fact_ok [] ("p", "segbind", "encodeFrame|seg:=&enc.dqm[0]") = false.
+Proof. repeat split; reflexivity. Qed.
 
 (** ** Assembly inventory: routine -> how it is covered *)
 Definition asm_covered : list (string * string) := [
@@ -113,7 +168,7 @@ Definition asm_covered : list (string * string) := [
   ("iTransformOneAVX2", "C13_lane16_idct_eq(_fits), same lane model as SSE2");
   ("iTransformOneNEON", "C13_idct32_eq (32-bit lanes), refuted beyond |c|<=15735: C13_idct_int_width_differs_refuted; not executable here");
   ("simpleVFilter16SSE2", "C13_lane16_simple_filter_eq"); ("simpleVFilter16AVX2", "C13_lane16_simple_filter_eq");
-  ("sse4x4SSE2", "C13_lane16_sse_eq"); ("sse16x16SSE2", "C13_lane16_sse_blocks_eq"); ("sse16x16AVX2", "C13_lane16_sse_blocks_eq");
+  ("sse4x4SSE2", "C13_asm_sse4x4_eq_model (model derived from the instruction list) + C13_lane16_sse_eq"); ("sse16x16SSE2", "C13_lane16_sse_blocks_eq"); ("sse16x16AVX2", "C13_lane16_sse_blocks_eq");
   ("sse4x4NEON", "same lane model (16-bit diff, 32-bit squares): C13_lane16_sse_eq; not executable here");
   ("sse16x16NEON", "UABDL + UMULL: neon_abd_square + C13_lane16_sse_blocks_eq; not executable here");
   ("tDisto4x4SSE2", "C13_lane16_tdisto_eq"); ("tDisto4x4AVX2", "C13_lane16_tdisto_eq (two blocks per register)");
